@@ -18,6 +18,11 @@ from ..dynamic_typing import (
 DEFAULT_ORDER = (
     "*",
 )
+# pydantic refuses to create a model with a field that shadows one of these BaseModel attributes
+BASE_MODEL_ATTRIBUTES = frozenset((
+    'construct', 'copy', 'dict', 'from_orm', 'json', 'parse_file', 'parse_obj', 'parse_raw',
+    'schema', 'schema_json', 'update_forward_refs', 'validate',
+))
 
 
 class PydanticModelCodeGenerator(GenericModelCodeGenerator):
@@ -39,6 +44,13 @@ class PydanticModelCodeGenerator(GenericModelCodeGenerator):
         """
         kwargs['post_init_converters'] = False
         super().__init__(model, **kwargs)
+
+    def convert_field_name(self, name):
+        field_name = super().convert_field_name(name)
+        if field_name in BASE_MODEL_ATTRIBUTES:
+            # The original name is kept as the field alias
+            field_name += "_"
+        return field_name
 
     def generate(self, nested_classes: List[str] = None, extra: str = "", **kwargs) \
             -> Tuple[ImportPathList, str]:
